@@ -83,7 +83,13 @@ func genAll(P *Program, only string) ([]*VC, []string) {
 		}
 		vc := newVC(P, fn, fc)
 		if err := vc.generate(); err != nil {
-			errs = append(errs, err.Error())
+			// the contract no longer fits the code (e.g. a loop it annotates
+			// was rewritten): reported as an undischarged obligation of that
+			// function, not as a tool failure
+			vc2 := newVC(P, fn, fc)
+			vc2.obs = []*Obligation{{Name: fn.RelString(fn.Pkg.Pkg) + "/contract:applies", Class: "contract", Props: []string{"*"}, Func: fn.String(), vc: vc2, raw: "(check-sat)\n", errText: err.Error()}}
+			vc2.contractErr = true
+			vcs = append(vcs, vc2)
 			continue
 		}
 		for _, w := range vc.warnings {
